@@ -1,5 +1,6 @@
 import AkVerif.Model.Murmur
 import AkVerif.Model.Assign
+import AkVerif.Model.Sticky
 import Driver.WireIO
 import Driver.ConnIO
 /-!
@@ -13,6 +14,7 @@ def dispatch (toks : List String) : Option String :=
   match toks with
   | "c17" :: rest => Murmur.handle rest
   | "c14" :: rest => Assign.handle rest
+  | "c15" :: rest => Sticky.handle rest
   | "c11" :: rest => WireIO.handle rest
   | "c12" :: rest => ConnIO.handle rest
   | _ => none
